@@ -39,6 +39,7 @@ type harnessCfg struct {
 	Name     string
 	Tiers    map[string]tierCfg
 	MapOrder bool
+	UnwindIsViolation bool // exceeding the call-depth bound counts as a violation (unbounded recursion)
 	Repeat   int // native replays per counterexample (schedule / map-order dependent behaviour)
 	Replay   string // "native" (default): go test -overlay of the same harness; "concrete": re-execution of the real code's SSA on the concrete inputs with the same models (harnesses whose models have no native counterpart)
 	Anchors  []string // functions of please that must be executed symbolically
@@ -272,6 +273,7 @@ func cmdCheck(args []string) int {
 			cfg.MaxPaths = *maxPaths
 		}
 		cfg.Preemptions = tc.Preemptions
+		cfg.UnwindViolation = h.UnwindIsViolation
 		budget := tc.Budget
 		if budget == 0 {
 			budget = 600
@@ -310,7 +312,7 @@ func cmdCheck(args []string) int {
 		if res.Truncated {
 			fmt.Printf("INCONCLUSIVE property=%s harness=%s reason=exploration truncated by path/time budget\n", c.Property, h.Name)
 		}
-		if res.Completed == 0 {
+		if res.Completed == 0 && len(res.Violations)+len(res.Known) == 0 {
 			broken = append(broken, h.Name+": vacuous (no path reached the end of the harness)")
 		}
 		if res.Obligations+res.TrivialTrue == 0 {
